@@ -219,6 +219,9 @@ def sweep_pairs(pool: dict, tier: str = "quick", vseed: int = 0) -> list[dict]:
     ccs = [c for c in pool["countries"] if vi[c]]
     for i in range(0, min(len(ccs) - 1, 40), 5):
         g(["iban", vi[ccs[i]][0], {}], ["iban", vi[ccs[i + 1]][0], {}], f"parse {ccs[i]} x {ccs[i+1]}")
+    for cc in ("DE", "FR", "GB", "NL", "IT"):  # first use of one country's spec by two threads at once
+        if len(vi.get(cc, [])) >= 2:
+            g(["iban", vi[cc][0], {}], ["iban", vi[cc][1], {}], f"parse {cc} x {cc} (cold)")
     g(["iban", vi["DE"][0], {}], ["iban", pool["odd_ibans"][0][1], {}], "parse valid x odd")
     g(["iban_props", vi["DE"][0]], ["iban_props", vi["FR"][0]], "props DE x FR")
     g(["iban_props", vi["GB"][0]], ["bic_props", pool["bics"]["registry"][0]], "props x bic_props")
